@@ -75,6 +75,7 @@ def build_vcs(prop, known, log):
         info["paths"] += ex.paths
         info["pruned_paths"] += ex.pruned
         info["return_paths"][spec.ident] = ex.return_paths
+        info.setdefault("unreached", []).extend(getattr(ex, "unreached", []))
         if spec.hints is None:
             extra_all = defs + proven_closed
         else:
@@ -459,7 +460,7 @@ def write_evidence(pid, tier, seed, prop, vcs, info, wall, undecided=None, solve
             "per_backend": per_backend, "solver_time_s": round(solver_time, 3),
             "paths_explored": info.get("paths") if info else 0,
             "samples": samples, "informational": informational,
-            "vacuity_probes_passed": probes, "known_findings_seen": list(known_lines), "undecided_obligations": undecided_n,
+            "vacuity_probes_passed": probes, "unreached_statements": (info.get("unreached", []) if info else []), "known_findings_seen": list(known_lines), "undecided_obligations": undecided_n,
             "undecided_reason": undecided,
         },
         "assumptions": assumptions, "wall_s": round(wall, 3), "violations": int(violations),
